@@ -732,7 +732,18 @@ class Hugr(Mapping[Node, NodeData], Generic[OpVarCov]):
             )
             assert n.idx == idx, "Nodes should be added contiguously"
 
+        def get_offset(
+            node: NodeIdx, offset: PortOffset | None, direction: Direction
+        ) -> PortOffset | None:
+            # hugr-rs leaves out the offset of the order port of dataflow nodes
+            order_offset = _num_dataflow_ports(hugr[Node(node)].op, direction)
+            if order_offset is not None and offset is None:
+                return -1
+            return offset
+
         for (src_node, src_offset), (dst_node, dst_offset) in serial.edges:
+            src_offset = get_offset(src_node, src_offset, Direction.OUTGOING)
+            dst_offset = get_offset(dst_node, dst_offset, Direction.INCOMING)
             if src_offset is None or dst_offset is None:
                 continue
             hugr.add_link(
